@@ -6,7 +6,8 @@ CONSTANTS
   MaxLen = 3
   MaxTime = 2
   RawOps = TRUE
-  IOAmts <- IO2
+  IOIns <- InsQ3
+  IOOuts <- OutsQ3
   Genesis <- Gen3
 VIEW View
 INVARIANTS SupplyEq BalanceWellFormed SupplyWellFormed HolderHasAccount NumsUnique
